@@ -414,6 +414,22 @@ fn check_ranges(
                 show(None, json!({"array": all, "element_truths": truths})),
             ));
         }
+        // per element under [*]: one answer for every element, also when all are false
+        for (quant, form, want2) in [
+            ("all", format!("all({aname}[*] in {list})"), truths.iter().all(|t| *t)),
+            ("any-not", format!("any(not ({aname}[*] in {list}))"), truths.iter().any(|t| !*t)),
+            ("all-not", format!("all(not {aname}[*] in {list})"), truths.iter().all(|t| !*t)),
+        ] {
+            let f2 = compile(&scheme, &form, &|| show(None, json!({"filter": form})))?;
+            let got = exec(&f2, &ec, st, &|| show(None, json!({"filter": form, "array": all})))?;
+            if got != want2 {
+                return Err(Fail::new(
+                    format!("in-{tyname}-per-element-mismatch"),
+                    format!("`{form}` over all probes at once ({quant}): engine {got}, model {want2}"),
+                    show(None, json!({"filter": form, "array": all, "element_truths": truths})),
+                ));
+            }
+        }
         let mut ec = ExecutionContext::new(&scheme);
         ec.set_field_value(field, LhsValue::Array(Array::new(elem_ty))).expect("empty array");
         let got = exec(&filter, &ec, st, &|| show(None, json!("empty array")))?;
